@@ -640,6 +640,29 @@ func c02Tables(c *vlib.Ctx, ck *Checker[c02Case]) {
 		cred.Credentialed = true
 		cells = append(cells, cell{cred, ins})
 	}
+	// one host under several schemes with different port sets, in every order of two and three patterns
+	sp := []string{"https://a.example", "http://a.example:8080", "https://a.example:9", "http://a.example", "ws://a.example:8080", "https://*.a.example:8080", "http://*.a.example"}
+	var spIntents []ref.Intent
+	for _, sch := range []string{"https", "http", "ws"} {
+		for _, host := range []string{"a.example", "x.a.example"} {
+			for _, port := range []string{"", ":8080", ":9"} {
+				spIntents = append(spIntents, ref.Intent{Origin: sch + "://" + host + port, Method: "GET"}, ref.Intent{Origin: sch + "://" + host + port, Method: "PUT", Headers: []string{"x-a"}})
+			}
+		}
+	}
+	for a := range sp {
+		for b := range sp {
+			if a == b {
+				continue
+			}
+			cells = append(cells, cell{CfgLit{Origins: []string{sp[a], sp[b]}, Methods: []string{"PUT"}, RequestHeaders: []string{"X-A"}, TolInsecure: true}, spIntents})
+			for d := range sp {
+				if d != a && d != b && (a+b+d)%2 == 0 {
+					cells = append(cells, cell{CfgLit{Origins: []string{sp[a], sp[b], sp[d]}, Credentialed: true, Methods: []string{"PUT"}, RequestHeaders: []string{"X-A"}, TolInsecure: true}, spIntents})
+				}
+			}
+		}
+	}
 	c.ParRange(int64(len(cells)), 1, "C02 tables and sizes", func(i int64) {
 		lit := cells[i].lit
 		if _, err := cors.NewMiddleware(lit.Config()); err != nil {
